@@ -295,7 +295,50 @@ def splice_keys(ctx):
     return [ctx.sym("c07-s1", 15) + b"\x00", ctx.sym("c07-s2"), bytes(16), ctx.sym("c07-s3", 14) + b"\x00\x00"]
 
 
+def run_recipients(ctx, case):
+    """several files written one after another in ONE process, the ECC block of each addressed to another key pair of the SAME
+    selector (an explicit recipient A, another explicit recipient B, the published default key): every file's blocks must wrap
+    that file's session key for that file's recipient"""
+    from bec2format.bec2file import EccEncryptor
+    from ..ref import der as D
+    _, seq = case
+    o = Outcome("recipients-ok", True)
+    scal = {"A": SCAL[0], "B": SCAL[2], "default": FX.ecc_scalar(ctx, 31)}
+    saved = dict(EccEncryptor.DEFAULT_PUBLIC_KEYS)
+    try:
+        Q = EC.P256.mul(scal["default"], EC.P256.g)
+        EccEncryptor.DEFAULT_PUBLIC_KEYS[0] = D.spki(Q[0], Q[1], 32, (1, 2, 840, 10045, 3, 1, 7))
+        for n, who in enumerate(seq):
+            key = splice_keys(ctx)[n % 2]
+            bec = Bec2File(shapes.mk_bf3([("Configuration", "c07")], FX.model_components(ctx, "one")), [InitEccAuthBlock(0), UpdateAuthBlock(CODE, 0x21)], key)
+            encs = [] if who == "default" else [EccEncryptor(0, FX.priv_key(scal[who]).public_key)]
+            with DetRandom("c07-recipients-%r-%d" % (seq, n)):
+                binary = bec.to_binary(encs)
+            hb = AB.parse_header(binary)[0]
+            ecc = [raw for t, raw in hb if t == 3]
+            upd = [raw for t, raw in hb if t == 2]
+            if len(ecc) != 1 or len(upd) != 1:
+                return o.viol("recipients|header", "file %d of %r: header blocks %r" % (n, seq, [t for t, _ in hb]))
+            try:
+                k_ecc = EC.ecies_unwrap(EC.P256, scal[who], ecc[0][1:])
+            except Exception as e:
+                k_ecc = e
+            k_upd = AB.container_unwrap(AB.code_key(CODE), upd[0])[:16]
+            if k_ecc != key or k_upd != key:
+                o.cls = "wrap-differs"
+                return o.viol("recipients|wrong-key", "file %d of the sequence %r (recipient %s): the ECC block opens with that recipient's key to %s, the "
+                              "update block wraps %s, the file's session key is %s" % (n, seq, who, k_ecc.hex() if isinstance(k_ecc, bytes) else repr(k_ecc), k_upd.hex(), key.hex()))
+    finally:
+        EccEncryptor.DEFAULT_PUBLIC_KEYS.clear()
+        EccEncryptor.DEFAULT_PUBLIC_KEYS.update(saved)
+    return o
+
+
 def splice_cases(ctx):
+    from itertools import product as _p
+    for n in (2, 3):
+        for seq in _p(("A", "B", "default"), repeat=n):
+            yield ("recipients", seq)
     kinds = ("cust", "ecc", "upd")
     nk = len(splice_keys(ctx))
     for a in kinds:
@@ -397,6 +440,8 @@ def run_case(ctx, case):
         return run_multisplice(ctx, case)
     if case[0] == "model":
         return run_model(ctx, case)
+    if case[0] == "recipients":
+        return run_recipients(ctx, case)
     if case[0] == "hist":
         # replay of a BFS history
         st = St()
